@@ -2,7 +2,7 @@
 import numpy as np
 
 from . import _rfa as R
-from .. import gen, tol
+from .. import callform, gen, tol
 from ..core import fp_watch
 
 PROPERTY = "C12"
@@ -86,8 +86,9 @@ def run_case(ctx, kind_, idx):
                 r = int(rng.integers(1, 13))
                 xin, xk = gen.as_container(rng, x)
                 yin, yk = gen.as_container(rng, y)
-                info.update({"r": r, "containers": [xk, yk]})
-                gx, gy = repeat(xin, yin, r)
+                r_arg, rt = gen.count_arg(rng, r)
+                info.update({"r": r, "r_type": rt, "containers": [xk, yk]})
+                gx, gy = callform.call(rng, repeat, "process.repeat", [xin, yin, r_arg])
                 ctx.judged()
                 ctx.monitor("c12:repeat")
                 if not judge_repeat(ctx, cid, x, y, r, gx, gy, info):
@@ -101,9 +102,11 @@ def run_case(ctx, kind_, idx):
                 pairs = [(a, b) for a in range(1, 13) for b in range(1, 13) if a * b <= 24]
                 a, b = pairs[int(rng.integers(0, len(pairs)))]
                 info.update({"a": a, "b": b})
-                x1, y1 = repeat(x, y, a)
-                x2, y2 = repeat(x1, y1, b)
-                x3, y3 = repeat(x, y, a * b)
+                (a_arg, at), (b_arg, bt), (ab_arg, abt) = (gen.count_arg(rng, v) for v in (a, b, a * b))
+                info["count_types"] = [at, bt, abt]
+                x1, y1 = repeat(x, y, a_arg)
+                x2, y2 = repeat(x1, y1, b_arg)
+                x3, y3 = repeat(x, y, ab_arg)
                 ctx.judged()
                 ctx.monitor("c12:composition")
                 span = float(x3[-1] - x3[0]) if len(x3) > 1 else 1.0
@@ -125,7 +128,9 @@ def run_case(ctx, kind_, idx):
                 bx, by = (np.array(a, dtype=float).copy() for a in wv.get())
                 if len(bx) < 2:
                     return
-                wv.repeat(r)
+                r_arg, rt = gen.count_arg(rng, r)
+                info["r_type"] = rt
+                callform.call(rng, wv.repeat, "Weaver.repeat", [r_arg])
                 ctx.judged()
                 ctx.monitor("c12:weaver")
                 for name, (gx, gy) in (("working", wv.get()), ("reference", wv.get_reference())):
